@@ -20,7 +20,7 @@ ASSUMPTIONS = ['href/xml:base references are plain relative references without e
                'includes inside an unused xi:fallback whose processing would fail, parse=xml targets that are not well-formed together with a fallback, BOMs in text resources: tagged unspecified, only termination asserted',
                'xpointer is unsupported by design: only "an error is reported" is asserted',
                'watchdog timeouts are inconclusive; non-termination is asserted only through the deterministic fetch bound of the counting resolver or a sanitizer-detected stack overflow']
-BUDGET = {'quick': 600, 'thorough': 6000}
+BUDGET = {'quick': 400, 'thorough': 6000}
 WALLCAP = {'quick': 400, 'thorough': 2400}
 
 XINC_FATAL = set(range(276, 287))
@@ -157,14 +157,24 @@ def gen_doc(g, path, forced, via_fallback):
     draw = g.draw
     base = xm.uri_of(path)
     xml_targets = [t for t in g.targets if g.files[t]['kind'] == 'xml']
-    doc = {'pro': [gen_misc(draw) for _ in range(draw(st.sampled_from([0, 0, 0, 1, 2])))],
+    doc = {'pro': [gen_misc(draw) for _ in range(draw(st.sampled_from([0, 0, 1, 1, 2])))],
            'epi': [gen_misc(draw) for _ in range(draw(st.sampled_from([0, 0, 0, 1])))],
            'doctype': g.idx > 0 and draw(st.integers(0, 7)) == 0}
-    if xml_targets and not forced and draw(st.integers(0, 9)) == 0:
-        # include as the document element: must yield exactly one element
-        t = draw(st.sampled_from(xml_targets))
-        root = ['inc', [['href', rel_href(t, base, draw(st.sampled_from([0, 1])))]], []]
-        if draw(st.integers(0, 3)) == 0: root[2].append(['fb', [], [['e', '', 'unused', [], []]]])
+    if not forced and draw(st.integers(0, 9)) < (3 if g.idx == 0 else 1):
+        # the xi:include IS the document element (must yield exactly one element): resolved from a parse=xml target, or through
+        # a fallback with one element child; comments / PIs around it in prolog and epilog
+        doc['pro'] = [gen_misc(draw) for _ in range(draw(st.integers(0, 2)))]
+        doc['epi'] = [gen_misc(draw) for _ in range(draw(st.integers(0, 2)))]
+        if xml_targets and draw(st.integers(0, 2)):
+            t = draw(st.sampled_from(xml_targets))
+            root = ['inc', [['href', rel_href(t, base, draw(st.sampled_from([0, 1])))]], []]
+            if draw(st.integers(0, 3)) == 0: root[2].append(['fb', [], [['e', '', 'unused', [], []]]])
+        else:
+            miss = draw(st.sampled_from(DIRS)) + 'zz%d.xml' % draw(st.integers(0, 2))
+            fch = [gen_element(g, base, 2)]
+            if draw(st.integers(0, 3)) == 0: fch.insert(0, gen_misc(draw))
+            if draw(st.integers(0, 3)) == 0: fch.append(gen_misc(draw))
+            root = ['inc', [['href', rel_href(miss, base, 0)]], [['fb', [], fch]]]
         doc['root'] = root
         return doc
     root = gen_element(g, base, 0)
@@ -366,8 +376,10 @@ def materialise(case):
     for d in case.get('mkdirs', []): os.makedirs(os.path.join(root, d), exist_ok=True)
     return root
 
+ACC = {}      # Document-level accessor lines of the last parsed response (#DOCEL #DOCTYPE #DEPAR #NSLOOK)
+
 def parse_response(resp):
-    ev = []; errs = []; excs = []; bases = []; docuri = None; fetch = (0, 0)
+    ev = []; errs = []; excs = []; bases = []; docuri = None; fetch = (0, 0); ACC.clear()
     for line in resp.split('\n'):
         if not line: continue
         p = line.split('\t')
@@ -377,6 +389,10 @@ def parse_response(resp):
         elif k == '#BASE': bases.append(None if p[1] == '\\N' else xv.unesc(p[1]))
         elif k == '#DOCURI': docuri = None if p[1] == '\\N' else xv.unesc(p[1])
         elif k == '#FETCH': fetch = (int(p[1]), int(p[2]))
+        elif k == '#DOCEL': ACC['docel'] = (None if p[1] == '\\N' else xv.unesc(p[1]), int(p[2]), int(p[3]))
+        elif k == '#DOCTYPE': ACC['doctype'] = (None if p[1] == '\\N' else xv.unesc(p[1]), None if p[2] == '\\N' else xv.unesc(p[2]))
+        elif k == '#DEPAR': ACC['depar'] = tuple(p[1:])
+        elif k == '#NSLOOK': ACC.setdefault('nslook', []).append([None if x == '\\N' else xv.unesc(x) for x in p[1:]])
         elif k.startswith('#'): continue
         elif k == 'SE': ev.append(['SE', xv.unesc(p[1])])
         elif k == 'EE': ev.append(['EE', xv.unesc(p[1])])
@@ -466,7 +482,34 @@ def check_response(case, resp, rooturl):
     if got1 != want_b:
         i = next(i for i in range(max(len(got1), len(want_b))) if i >= len(got1) or i >= len(want_b) or got1[i] != want_b[i])
         return False, 'getBaseURI(): element #%d (document order) reports %r, the model (and the xml:base chain) says %r' % (i, got1[i] if i < len(got1) else None, want_b[i] if i < len(want_b) else None)
+    bad = check_accessors(exp)
+    if bad: return False, bad
     return True, 'ok'
+
+def check_accessors(exp):
+    """Document-level accessors of the merged document against the child list and the model (valid class only)"""
+    if 'docel' not in ACC: return 'the harness did not report the Document-level accessors'
+    want = next(e[1] for e in exp['events'] if e[0] == 'SE')
+    name, same, nel = ACC['docel']
+    if name is None: return 'Document.getDocumentElement() is NULL although the merged Document has %d element child(ren) (model: document element %s)' % (nel, want)
+    if not same or nel != 1: return 'Document.getDocumentElement() (%s) is not the single element child of the Document (same node: %d, element children: %d)' % (name, same, nel)
+    if name != want: return 'Document.getDocumentElement() is %s, the model says %s' % (name, want)
+    dt_acc, dt_child = ACC.get('doctype', (None, None))
+    if dt_acc != dt_child or dt_acc is not None:
+        return 'Document.getDoctype() says %r, the child list has %r, the model says None (the top document has no DOCTYPE and included ones are not carried)' % (dt_acc, dt_child)
+    if ACC.get('depar') != ('1', '1'): return 'documentElement.getParentNode()/getOwnerDocument() is not the Document: %r' % (ACC.get('depar'),)
+    rows = ACC.get('nslook', [])
+    for r in rows:
+        if len(r) < 8: return 'Document.lookupNamespaceURI: %r' % (r,)
+        prefix, uri, dl, el, dp, ep, di, ei = r[:8]
+        if dl != el or (uri and dl != uri):
+            return 'Document.lookupNamespaceURI(%r) = %r; the document element says %r and declares %r' % (prefix, dl, el, uri)
+        if dp != ep: return 'Document.lookupPrefix(%r) = %r, the document element says %r' % (uri, dp, ep)
+        if di != ei: return 'Document.isDefaultNamespace(%r) = %r, the document element says %r' % (uri, di, ei)
+    rootns = want[1:want.index('}')]
+    if rootns == 'urn:p' and not any(r[0] == 'p' and r[1] == 'urn:p' for r in rows): return 'model: the merged root declares xmlns:p="urn:p"; namespace declarations found on it: %r' % ([r[:2] for r in rows],)
+    if rootns == 'urn:d' and not any(r[0] == '' and r[1] == 'urn:d' and r[6] == '1' for r in rows): return 'model: the merged root declares xmlns="urn:d" (default namespace); found: %r' % ([r[:2] + r[6:8] for r in rows],)
+    return None
 
 def run_case(case, ex):
     """-> (verdict, detail)  verdict: True | False | None (inconclusive: watchdog)"""
